@@ -16,6 +16,7 @@ import (
 	"sort"
 	"strconv"
 	"strings"
+	"sync/atomic"
 	"testing"
 	"time"
 
@@ -813,4 +814,79 @@ func TestReplay(t *testing.T) {
 	if o.sig != "" {
 		t.Errorf("[%s] %s", o.sig, o.msg)
 	}
+}
+
+// native, coverage-guided fuzzing of the decoders (thorough tier): arbitrary
+// bytes under any registered format or the probe, force where it terminates.
+// Seeded with the smallest sample of every format.  A Go panic escaping
+// decode.Decode fails the target unless its signature is a listed finding.
+func FuzzDecode(f *testing.F) {
+	p := getPool()
+	names := append([]string{"probe"}, p.all...)
+	idx := map[string]int{}
+	for i, n := range names {
+		idx[n] = i
+	}
+	for _, fm := range p.formats {
+		es := p.byFmt[fm]
+		if len(es) == 0 {
+			continue
+		}
+		e := es[0]
+		if len(e.Data) > 16*1024 {
+			continue
+		}
+		if i, ok := idx[e.Format]; ok {
+			f.Add(e.Data, uint16(i), false)
+		} else {
+			f.Add(e.Data, uint16(0), false)
+		}
+	}
+	var hung int32
+	f.Fuzz(func(t *testing.T, data []byte, fi uint16, force bool) {
+		if len(data) > 64*1024 {
+			t.Skip()
+		}
+		if atomic.LoadInt32(&hung) >= 2 {
+			// decodes that do not return keep their goroutine busy; give the
+			// worker up rather than pile them on
+			t.Skip()
+		}
+		format := names[int(fi)%len(names)]
+		if force && !p.forceOK(format) {
+			force = false
+		}
+		type out struct {
+			sig, msg string
+		}
+		done := make(chan out, 1)
+		go func() {
+			var o out
+			defer func() {
+				if r := recover(); r != nil {
+					st := string(debug.Stack())
+					o.sig = faultClass(r) + ":" + harness.FaultFrame(st)
+					if len(st) > 4000 {
+						st = st[:4000]
+					}
+					o.msg = fmt.Sprintf("format %s force %v: Go panic escaped: %v\n%s", format, force, r, st)
+				}
+				done <- o
+			}()
+			v, _, _ := fqx.Decode(context.Background(), data, format, force)
+			if v != nil {
+				n := 0
+				fqx.Walk(v, func(v *decode.Value, depth int) { n++ })
+			}
+		}()
+		select {
+		case o := <-done:
+			if o.sig != "" && !harness.Known(o.sig) {
+				t.Fatalf("[%s] %s", o.sig, o.msg)
+			}
+		case <-time.After(10 * time.Second):
+			atomic.AddInt32(&hung, 1)
+			t.Skip("suspected hang")
+		}
+	})
 }
